@@ -156,7 +156,17 @@ def run():
                 ev = evs[idx] if idx < len(evs) else {}
                 prev = evs[idx - 1] if idx > 0 else {}
                 if not evs or evs[-1].get("e") != "Done":
-                    key = "c01:crash-or-hang:%s" % ("/".join(str(x) for x in (prev.get("c") or ev.get("c") or ["?"])[:3]))
+                    # the call that was running: the session entry whose Begin has no result
+                    begun = [e.get("id") for e in evs if e.get("e") == "Begin"]
+                    entries = [l for l in open(s[1]).read().splitlines() if not l.startswith("(reset)")]
+                    running = entries[begun[-1] - 1] if begun and begun[-1] - 1 < len(entries) else "?"
+                    what = running.split(" ")[0].strip("(") if running != "?" else "?"
+                    if what == "readtext":
+                        shape = "reader:" + ("hex-escape-run" if "\\\\x" in running or "\\x" in running else "other")
+                    else:
+                        shape = " ".join(running.strip("()").split(" ")[:3])
+                    key = "c01:crash-or-hang:%s" % shape
+                    ev = dict(ev, running=running[:300])
                 else:
                     c = ev.get("c", ["?"])
                     key = "c01:%s:%s:%s" % (c[0], c[2] if len(c) > 2 else "", ev.get("class"))
